@@ -59,18 +59,42 @@ func rulePersistedIndex(c *Ctx) {
 	}
 	c.ok("index-key", 0, false, "start-up restores the counter from %q", idxKey)
 	n := 0
+	isTx := func(t types.Type) bool {
+		p, ok := t.(*types.Pointer)
+		return ok && isNamedType(p.Elem(), "github.com/tidwall/buntdb", "Tx")
+	}
+	// transaction bodies: literals passed to buntdb Update, and declared functions that take the transaction
+	// (a helper the literal hands its *buntdb.Tx to is still the transaction)
+	type txBody struct {
+		fn   *FuncInfo
+		body *ast.BlockStmt
+	}
+	var bodies []txBody
 	for _, fn := range c.AllFuncs("internal/server") {
 		info := fn.Info()
-		// transaction closures: literals passed to buntdb Update
+		if sig, ok := fn.Obj.Type().(*types.Signature); ok && fn.Decl.Body != nil {
+			for i := 0; i < sig.Params().Len(); i++ {
+				if isTx(sig.Params().At(i).Type()) {
+					bodies = append(bodies, txBody{fn, fn.Decl.Body})
+					break
+				}
+			}
+		}
 		ast.Inspect(fn.Decl.Body, func(x ast.Node) bool {
 			up, ok := x.(*ast.CallExpr)
 			if !ok || !isBuntUpdate(callee(info, up), up) || len(up.Args) != 1 {
 				return true
 			}
-			lit, ok := ast.Unparen(up.Args[0]).(*ast.FuncLit)
-			if !ok {
-				return true
+			if lit, ok := ast.Unparen(up.Args[0]).(*ast.FuncLit); ok {
+				bodies = append(bodies, txBody{fn, lit.Body})
 			}
+			return true
+		})
+	}
+	for _, tb := range bodies {
+		fn, info := tb.fn, tb.fn.Info()
+		lit := struct{ Body *ast.BlockStmt }{tb.body}
+		func() bool {
 			// key writes: tx.Set(K, …) where K is (a local defined as) hookLogPrefix + uint64ToString(counter)
 			var counter ast.Expr
 			var keySets, idxSets []*ast.CallExpr
@@ -155,8 +179,19 @@ func rulePersistedIndex(c *Ctx) {
 						if !ok || len(r.Results) != 1 {
 							return false
 						}
-						tv, ok := info.Types[r.Results[0]]
-						return ok && tv.IsNil()
+						if tv, ok := info.Types[r.Results[0]]; ok && tv.IsNil() {
+							return true
+						}
+						// return err, where err is not known to be non-nil here, may commit as well
+						if id, ok := ast.Unparen(r.Results[0]).(*ast.Ident); ok {
+							for k, v := range lfg.identFacts(lfg.DominatingFacts(l)) {
+								if k.obj == info.ObjectOf(id) && k.isNil && !v {
+									return false
+								}
+							}
+							return true
+						}
+						return false
 					},
 					Avoid: func(l Loc) bool { return il.Valid() && l.Block == il.Block && l.Idx == il.Idx },
 				})
@@ -170,7 +205,7 @@ func rulePersistedIndex(c *Ctx) {
 				}
 			}
 			return true
-		})
+		}()
 	}
 	if n == 0 {
 		c.und("no-sites", 0, "no transaction that stores notifications under hookLogPrefix keys found")
